@@ -65,9 +65,11 @@ def _pnr_cover(n):
     return set([i for i, c in enumerate(n) if c in DIGITS][-10:])
 
 
-def E(label, module, T=False, kwargs=None, seed=None, generic=None, covered=None, repair=((-1,), DIGITS), via=''):
+def E(label, module, T=False, kwargs=None, seed=None, generic=None, covered=None, repair=((-1,), DIGITS), via='', alt=None):
+    # alt: when given, the documented alternative scheme explains an accepted neighbour only if alt(neighbour) holds;
+    # any other accepted neighbour that fails the generic check is a plain violation, not the known alternative
     return {'label': label, 'module': module, 'T': T, 'kwargs': kwargs or {}, 'seed': seed,
-            'generic': generic, 'covered': covered, 'repair': repair, 'via': via}
+            'generic': generic, 'covered': covered, 'repair': repair, 'via': via, 'alt': alt}
 
 
 # T = the property also promises detection of adjacent transpositions
@@ -109,7 +111,8 @@ ENTRIES = [
     E('gn.nifp', 'stdnum.gn.nifp', via='luhn'),
     E('gr.amka', 'stdnum.gr.amka', via='luhn'),
     E('id.npwp', 'stdnum.id.npwp', generic=_npwp_generic,
-      covered=lambda n: set(range(9 if len(n) == 15 else 10)), repair=((8, 9), DIGITS), via='luhn on [:9] / [:10]'),
+      covered=lambda n: set(range(9 if len(n) == 15 else 10)), repair=((8, 9), DIGITS), via='luhn on [:9] / [:10]',
+      alt=lambda n: len(n) == 16 and n[0] != '0'),     # the NIK reading
     E('il.hp', 'stdnum.il.hp', via='luhn'),
     E('il.idnr', 'stdnum.il.idnr', via='luhn'),
     E('in.epic', 'stdnum.in_.epic', covered=lambda n: set(range(3, len(n))), via='luhn on [3:]'),
@@ -310,8 +313,10 @@ def entry_job(arg):
                     src, dst = v, n
                 both = generic(src) and generic(dst)
                 positions = {i, i + 1} if kind == 'transposition' else {i}
-                if not both:
+                if not both and (e['alt'] is None or e['alt'](dst) or e['alt'](src)):
                     suffix = '-via-alternative-scheme'
+                elif not both:
+                    suffix = ''
                 elif not (positions & covered(src)):
                     suffix = '-outside-check-coverage'
                 else:
